@@ -73,7 +73,7 @@ func (c05Suite) Gen(rng *Rng, tier string, w *bufio.Writer, stats *Stats) {
 		emit("params", fmt.Sprintf("p %d", i))
 	}
 	emit("kindmapper", "kmrace")
-	nkm, npath := 24, 40
+	nkm, npath := 48, 40
 	if tier == "thorough" {
 		nkm, npath = 200, 600
 	}
@@ -934,7 +934,8 @@ func c05KindMapperContract(i int) string {
 	a, b := fmt.Sprintf("FreshKind%dA", i), fmt.Sprintf("FreshKind%dB", i)
 	var text string
 	goroutines := c05Concurrent
-	switch i % 6 {
+	parseRace := false
+	switch i % 8 {
 	case 0:
 		text = fmt.Sprintf("CREATE (n:%s) RETURN n", a)
 	case 1:
@@ -947,8 +948,14 @@ func c05KindMapperContract(i int) string {
 		text = fmt.Sprintf("CREATE (n:%s:NodeKind1) RETURN n", a)
 	case 4:
 		text = fmt.Sprintf("CREATE (n:NodeKind1:%s:NodeKind2:%s) RETURN n", a, b)
-	default:
+	case 5:
 		text = fmt.Sprintf("CREATE (n:%s:User:%s)-[:EdgeKind1]->(m:Group:%s:Computer) RETURN n", b, a, a)
+	// kind names that NOTHING has seen yet, not even the parser: every goroutine parses the text itself behind the
+	// barrier, so the first use (interning by graph.StringKind) of the name happens concurrently
+	case 6:
+		text, parseRace = fmt.Sprintf("CREATE (n:%s {name: 'x'}) RETURN n", a), true
+	default:
+		text, parseRace = fmt.Sprintf("CREATE (n:%s:%s)-[:%sE]->(m:%s) RETURN n", a, b, b, b), true
 	}
 	translate := func() c05Outcome {
 		m, err, pp := parseQuery(text)
@@ -957,9 +964,14 @@ func c05KindMapperContract(i int) string {
 		}
 		return c05Translate(m, mapper, nil)
 	}
-	// first call (registers), a sequential repeat, then the concurrent batch: all byte-equal
-	first := translate()
-	outs := []c05Outcome{translate()}
+	// first call (registers), a sequential repeat, then the concurrent batch: all byte-equal.
+	// parse-race cases have no sequential prelude: goroutine 0's answer is the reference.
+	var first c05Outcome
+	var outs []c05Outcome
+	if !parseRace {
+		first = translate()
+		outs = []c05Outcome{translate()}
+	}
 	conc := make([]c05Outcome, goroutines)
 	var wg sync.WaitGroup
 	start := make(chan struct{})
@@ -973,6 +985,37 @@ func c05KindMapperContract(i int) string {
 	}
 	close(start)
 	wg.Wait()
+	if parseRace {
+		first, conc = conc[0], conc[1:]
+		// the window between "name not interned yet" and "name interned" is a few instructions wide: repeat with fresh
+		// names, short texts and a barrier per round so that the sixteen first uses fall together
+		for round := 0; round < 48 && first.Status == "ok"; round++ {
+			name := fmt.Sprintf("FreshKind%dR%d", i, round)
+			short := fmt.Sprintf("CREATE (n:%s) RETURN n", name)
+			res := make([]c05Outcome, goroutines)
+			var wg2 sync.WaitGroup
+			gate := make(chan struct{})
+			for g := 0; g < goroutines; g++ {
+				wg2.Add(1)
+				go func(g int) {
+					defer wg2.Done()
+					<-gate
+					if m, err, pp := parseQuery(short); err == nil && pp == "" {
+						res[g] = c05Translate(m, mapper, nil)
+					}
+				}(g)
+			}
+			close(gate)
+			wg2.Wait()
+			for g := 1; g < goroutines; g++ {
+				if res[g].key() != res[0].key() {
+					text = short
+					first = res[0]
+					conc = append(conc, res[g])
+				}
+			}
+		}
+	}
 	outs = append(outs, conc...)
 	cls, detail := "ok", ""
 	for g, o := range outs {
@@ -1001,6 +1044,25 @@ func c05KindMapperContract(i int) string {
 	for kind, id := range mapper.KindToID {
 		if back, ok := mapper.IDToKind[id]; !ok || !back.Is(kind) {
 			consistent, cls, detail = false, "kindmapper-contract", fmt.Sprintf("kind %s has id %d but that id belongs to %v", kind, id, back)
+		}
+	}
+	// one id per kind NAME: the tables are keyed by graph.Kind identity, two handles of one name would hide here
+	byName := map[string][]int16{}
+	for kind, id := range mapper.KindToID {
+		byName[kind.String()] = append(byName[kind.String()], id)
+	}
+	for id, kind := range mapper.IDToKind {
+		found := false
+		for _, x := range byName[kind.String()] {
+			found = found || x == id
+		}
+		if !found {
+			byName[kind.String()] = append(byName[kind.String()], id)
+		}
+	}
+	for name, ids := range byName {
+		if len(ids) > 1 {
+			consistent, cls, detail = false, "kindmapper-contract", fmt.Sprintf("kind name %s has %d ids %v: two handles of one name were registered separately", name, len(ids), ids)
 		}
 	}
 	if cls == "kindmapper-contract" && consistent {
